@@ -4,12 +4,26 @@ from ..rules import checkers as ck
 
 
 def tu_check(tu):
-    return dict(atoms=ck.c_atoms(tu))
+    # the functions the C checker consists of: BTree_check_inner, its entry
+    # point and the helpers of the unit it calls
+    from ..rules import pins
+    from ..cir import callee
+    fns = set(["BTree_check_inner", "BTree_check"])
+    for c in tu.func("BTree_check_inner").walk():
+        if c.k == "CallExpr" and callee(c)[0] == "fn" and callee(c)[1] in tu.funcs:
+            try:
+                tu.body(callee(c)[1])
+                fns.add(callee(c)[1])
+            except Exception:
+                pass
+    pr = pins.analyse_tu(tu)
+    ghost = [f for f in pr["findings"] if f["rule"] == "GHOST-READ" and f.get("function") in fns]
+    return dict(atoms=ck.c_atoms(tu), ghost=ghost, checker_functions=sorted(fns))
 
 
 def run(tier="quick", seed=0, use_cache=True):
     res = engine.Result("C18")
-    res.rules = ["CHECK-INVENTORY", "CHECK-AGREE", "COMPLAIN-DISC", "RANGE-PROP", "CHECK-TABLES", "CHECK-TRANSPARENT"]
+    res.rules = ["CHECK-INVENTORY", "CHECK-AGREE", "COMPLAIN-DISC", "RANGE-PROP", "CHECK-TABLES", "CHECK-TRANSPARENT", "GHOST-READ"]
     res.explanation = (
         "Inventory of what the checkers assert, decided from source: every "
         "CHECK(...) of BTree_check_inner (each of the 22 translation units) "
@@ -27,6 +41,7 @@ def run(tier="quick", seed=0, use_cache=True):
         "or the inherited lo, hi' = keys[i] or the inherited hi. CHECK-TABLES: the two dispatch tables of check.py are evaluated from the module-level loops that build them (partial evaluation with classes as symbols) and compared, for the 22 families and both implementations, with kind/mapping-ness per container type and leaf type per tree type. CHECK-TRANSPARENT: no function of check.py applies a de-duplicating or re-ordering operation (dict, set, sorted, .sort ...) to what it takes from a state, so duplicates and misorder reach check_sorted. That every "
         "valid tree is accepted, and that each concrete corruption is "
         "caught by the combination of the two tools, is not decided."
+        ' GHOST-READ (the pin typestate of C05, restricted to the functions of the C checker): what the checker compares is read from activated nodes only - a field of a possibly unloaded node is not evidence about the tree.'
         ' CHECK-TABLES: the dispatch tables of check.py are evaluated from their module-level loops for every family and both implementations. CHECK-TRANSPARENT: no de-duplicating / re-ordering operation on state data. An assertion switched off by a guard on its own value counts as weakened.')
     res.assumptions = ["crack_btree / crack_bucket split the state by position as documented (only the absence of de-duplicating / re-ordering operations is checked)"]
     out = engine.map_tus("sa.props.C18", "tu_check", use_cache=use_cache)
@@ -37,6 +52,9 @@ def run(tier="quick", seed=0, use_cache=True):
         f, k = ck.compare(atoms, pa)
         n += k
         res.findings.extend(f, fam)
+        res.findings.extend(r["ghost"], fam)
+    res.count("GHOST-READ", sum(len(r["checker_functions"]) for r in out.values()))
+    res.floor("functions of the C checker under the pin typestate (OO)", len(out["OO"]["checker_functions"]), 2)
     res.floor("C assertions (OO)", len(out["OO"]["atoms"]), 12)
     res.floor("Python assertions", len(pa), 9)
     res.floor("translation units", len(out), 22)
